@@ -55,6 +55,59 @@ def _ensure_stubs(stub_dir: Path, text: str, backend: str):
             p.write_text(f'#include "{model_header(backend)}"\n')
 
 
+def lex_check(text: str) -> Optional[str]:
+    """Cheap lexical sanity check of a rendered C++ file: literals terminated on their line, comments closed, brackets
+    balanced.  A file failing this cannot be spliced next to other programs (its errors would be attributed to them)."""
+    i, n = 0, len(text)
+    stack = []
+    line = 1
+    pairs = {")": "(", "]": "[", "}": "{"}
+    while i < n:
+        c = text[i]
+        if c == "\n":
+            line += 1
+            i += 1
+        elif c == "/" and i + 1 < n and text[i + 1] == "/":
+            j = text.find("\n", i)
+            i = n if j < 0 else j
+        elif c == "/" and i + 1 < n and text[i + 1] == "*":
+            j = text.find("*/", i + 2)
+            if j < 0:
+                return f"line {line}: unterminated comment"
+            line += text.count("\n", i, j)
+            i = j + 2
+        elif c in "\"'":
+            q = c
+            j = i + 1
+            while True:
+                if j >= n or text[j] == "\n":
+                    return f"line {line}: unterminated {'string' if q == chr(34) else 'character'} literal"
+                if text[j] == "\\":
+                    if j + 1 < n and text[j + 1] == "\n":
+                        return f"line {line}: backslash-newline inside a literal"
+                    j += 2
+                    continue
+                if text[j] == q:
+                    break
+                j += 1
+            i = j + 1
+        elif c in "([{":
+            stack.append((c, line))
+            i += 1
+        elif c in ")]}":
+            if not stack or stack[-1][0] != pairs[c]:
+                return f"line {line}: unbalanced '{c}'"
+            stack.pop()
+            i += 1
+        elif c == "\\" and i + 1 < n and text[i + 1] == "\n":
+            return f"line {line}: stray backslash-newline"
+        else:
+            i += 1
+    if stack:
+        return f"line {stack[-1][1]}: unclosed '{stack[-1][0]}'"
+    return None
+
+
 @dataclass
 class Program:
     idx: int
@@ -102,7 +155,16 @@ def compile_batch(workdir: Path, programs: List[Program], backend: str, extra_fl
                   timeout=600) -> Tuple[Optional[Path], Dict[int, List[str]]]:
     """Returns (binary or None, {program idx: [error lines]}).  Programs with errors are dropped and the batch rebuilt."""
     failed: Dict[int, List[str]] = {}
-    progs = list(programs)
+    progs = []
+    for p in programs:
+        bad = None
+        for fn in (("query.h", "query.cxx") if backend == "atlas" else ("Analyzer.cc",)):
+            bad = bad or lex_check(p.files[fn])
+            if bad:
+                failed[p.idx] = [f"{fn}: lexically malformed C++: {bad}"]
+                break
+        if not bad:
+            progs.append(p)
     for _round in range(4):
         if not progs:
             return None, failed
@@ -116,13 +178,51 @@ def compile_batch(workdir: Path, programs: List[Program], backend: str, extra_fl
         errs = {}
         for m in _diag_err_re.finditer(r.stderr):
             errs.setdefault(int(m.group(1)), []).append(f"{m.group(2)}:{m.group(3)}: {m.group(4)}")
-        if not errs:
-            # cannot attribute (harness problem or error outside any program) - fail loudly
-            raise RuntimeError("harness: unattributable compile error:\n" + r.stderr[:4000])
+        if not errs or _round == 3:
+            # cannot attribute: bisect (a program can derail the diagnostics of its neighbours)
+            if len(progs) == 1:
+                failed[progs[0].idx] = [ln for ln in r.stderr.split("\n") if "error" in ln][:5] or ["compile failed"]
+                return None, failed
+            return _bisect(workdir, progs, backend, extra_flags, failed, timeout)
         for k, v in errs.items():
             failed[k] = v
         progs = [p for p in progs if p.idx not in failed]
-    raise RuntimeError("harness: batch still failing after 4 rounds")
+    raise RuntimeError("harness: unreachable")
+
+
+def _bisect(workdir, progs, backend, extra_flags, failed, timeout):
+    """Find the programs that do not compile by halving; returns the binary of all good programs together."""
+    good = []
+
+    def rec(ps):
+        if not ps:
+            return
+        sub = workdir / f"b{len(list(workdir.iterdir()))}"
+        sub.mkdir()
+        tu = write_batch(sub, ps, backend)
+        cmd = [CXX] + BASE_FLAGS + list(extra_flags) + ["-I", str(INCLUDE_DIR), "-I", str(sub / "stubs"), "-I", str(sub), "-fsyntax-only", str(tu)]
+        r = subprocess.run(cmd, capture_output=True, text=True, timeout=timeout, errors="replace")
+        if r.returncode == 0:
+            good.extend(ps)
+            return
+        if len(ps) == 1:
+            failed[ps[0].idx] = [m.group(0)[:200] for m in _diag_err_re.finditer(r.stderr)][:5] or [ln for ln in r.stderr.split("\n") if "error" in ln][:5]
+            return
+        h = len(ps) // 2
+        rec(ps[:h])
+        rec(ps[h:])
+    rec(progs)
+    if not good:
+        return None, failed
+    final = workdir / "final"
+    final.mkdir()
+    tu = write_batch(final, good, backend)
+    exe = final / "batch.bin"
+    cmd = [CXX] + BASE_FLAGS + list(extra_flags) + ["-I", str(INCLUDE_DIR), "-I", str(final / "stubs"), "-I", str(final), str(tu), "-o", str(exe)]
+    r = subprocess.run(cmd, capture_output=True, text=True, timeout=timeout, errors="replace")
+    if r.returncode != 0:
+        raise RuntimeError("harness: programs that compile separately fail together:\n" + r.stderr[:3000])
+    return exe, failed
 
 
 @dataclass
@@ -253,7 +353,10 @@ def parse_value(s: str):
     if s == "false":
         return False
     try:
-        return int(s)
+        v = int(s)
+        if v == 0 and s.startswith("-"):
+            return -0.0
+        return v
     except ValueError:
         return float(s)
 
